@@ -104,6 +104,21 @@ def run(ctx):
                           mStart=(other != "mstart"), cStart=not cfail, cStop=(other != "cstop"))
                 steps.append(st)
         pscripts.append(dict(cfg=cfgp, steps=steps, origin="logmix"))
+    # one storage fault that persists over many frames of a recording in progress (writes of the motion / continuous
+    # sink failing frame after frame): one condition recurring on every frame
+    for i in range(20 if tier == "quick" else 200):
+        fps = rng.choice([1, 2, 3])
+        cfgp = dict(fps=fps, preview=rng.choice([0, 1]), trig=rng.choice([1, 2]), min=rng.choice([3, 5]), max=rng.choice([8, 10]),
+                    const=rng.random() < 0.5, win=[], shadow=False, resx=4, resy=3)
+        steps = [dict(a="frame", motion=False) for _ in range(rng.randint(1, 4))]
+        steps += [dict(a="frame", motion=True) for _ in range(rng.randint(2, 4))]
+        which = rng.choice(["mW", "mW", "cW"]) if cfgp["const"] else "mW"
+        for k in range(rng.randint(4, 12)):
+            st = dict(a="frame", motion=rng.random() < 0.5)
+            st[which] = False
+            steps.append(st)
+        steps += [dict(a="frame", motion=False) for _ in range(rng.randint(0, 3))]
+        pscripts.append(dict(cfg=cfgp, steps=steps, origin="persistent-fault"))
     ptrace = fam_proc.drive(ctx, pscripts, "c20proc", env=dict(VERIF_LOGS="1"))
     # the same scripts with the processor's limiter replaced by one that suppresses nothing: the attempted messages
     atrace = fam_proc.drive(ctx, [dict(s, cfg=dict(s["cfg"], nolimit=True)) for s in pscripts], "c20attempts", env=dict(VERIF_LOGS="1"))
@@ -128,6 +143,26 @@ def run(ctx):
     with open(trace, "a") as f:
         for si in sorted(obs):
             f.write(json.dumps(dict(ev="pcmp", script=si, attempts=att.get(si, []), out=obs[si])) + "\n")
+    # one condition recurring: consecutive frames that are the same script step and had the same storage calls with the
+    # same results - frame writes only, a failing one among them; `a`/`b` = what the processor tried to log on each
+    nrep = 0
+    with open(trace, "a") as f:
+        cur, prev, k = None, None, 0
+        for e in vlib.read_ndjson(atrace):
+            if e["ev"] == "cfg":
+                cur, prev, k = e["script"], None, 0
+                continue
+            sig = None
+            if e["ev"] == "frame" and k < len(pscripts[cur]["steps"]):
+                calls = [(c["s"], c["op"], c["ok"]) for c in e.get("calls") or []]
+                if any(not c[2] for c in calls) and all(c[1] == "w" for c in calls):   # recordings in progress, nothing starts or stops
+                    sig = json.dumps([pscripts[cur]["steps"][k], calls, e.get("err")], sort_keys=True)
+            msgs = [ln["out"] for ln in (e.get("logs") or [])]
+            if sig is not None and prev is not None and prev[0] == sig:
+                nrep += 1
+                f.write(json.dumps(dict(ev="prep", script=cur, step=k, a=prev[1], b=msgs)) + "\n")
+            prev = (sig, msgs) if sig is not None else None
+            k += 1
     events = vlib.read_ndjson(trace)
     viol, nev = judge(ctx, trace)
     owner, cur, starts = [], -1, {}
@@ -143,7 +178,7 @@ def run(ctx):
             seen.add(t)
             si = owner[line - 1]
             ob = events[line - 1]
-            if ob["ev"] in ("pout", "pcmp"):
+            if ob["ev"] in ("pout", "pcmp", "prep"):
                 rp = vlib.save_replay(ctx, t.replace(":", "_"), dict(family="loglim", property="C20", clause=t,
                                       proc_script=pscripts[ob["script"]], observed=ob))
                 violations.append(dict(key=t, replay=rp, what=json.dumps(ob)[:200]))
@@ -158,7 +193,7 @@ def run(ctx):
                     traces_validated_against_impl=len(scripts), samples=[dict(script=scripts[0], trace=events[:5])],
                     exhaustive=True, design=dict(Interval=I, MaxTime=consts["MaxTime"]), cover_edges=ne,
                     cover_scripts=ncover, random_scripts=nrand, events_judged=nev, calls=len(prints), suppressed=supp,
-                    processor_scripts=len(pscripts), processor_lines_judged=plines,
+                    processor_scripts=len(pscripts), processor_lines_judged=plines, recurring_condition_frame_pairs=nrep,
                     processor_attempted_messages=sum(len(v) for v in att.values()),
                     recorder_interval_checked=any(e["ev"] == "const" for e in events),
                     evaluations=len(scripts), distinct_nontrivial=distinct,
